@@ -405,3 +405,62 @@ for _k in ALL_OF:
 
 
 CONTRACTS = ALL_OF + [ParentSet, PropertyGroupRemove, PropertyGroupAdd, AddSaveConcatenated, OpenResetsRegistries, OpenOnOpenWorkspace, OpenMode]
+
+
+class SweepDeadEntries(Contract):
+    """Workspace.remove_none_referents: every entry whose entity is gone leaves the registry and is
+    removed from the flat container of its kind in the file -- except property groups, which have no
+    container of their own (they are stored with their object): for them the registry alone is
+    cleaned and the file is not touched; live entries stay."""
+    target = "geoh5py/workspace/workspace.py::Workspace.remove_none_referents"
+    props = ("C05", "C06")
+    lenient = True
+    bounded_scope = "registries of 0-3 entries with every pattern of live / dead (exhaustive), for each of the five kinds"
+
+    def cases(self):
+        return [(kind, pat) for kind in ("Groups", "Objects", "Data", "Types", "PropertyGroups") for n in range(0, 4) for pat in itertools.product((True, False), repeat=n)]
+
+    def setup(self, ctx):
+        import uuid
+
+        from geoh5py.workspace import Workspace
+
+        kind, pat = ctx.case
+        me = Opaque("self", cls=Workspace)
+
+        def io_call(I, a, kw):
+            I.event("io", fun=getattr(getattr(a[0], "func", a[0]), "__name__", str(a[0])), args=list(a[1:]), kw=dict(kw))
+            return None
+
+        ioc = Opaque("_io_call")
+        ioc.maybe_method = io_call
+        me.attrs["_io_call"] = ioc
+        reg = {}
+        keep = []
+        for i, alive in enumerate(pat):
+            target = Opaque(f"entity-{i}")
+            ctx.path.assume(~target.none_var())  # a live reference yields its entity
+            keep.append(target)
+            ref = Opaque(f"ref-{i}")
+            ref.maybe_method = (lambda I, a, kw, _t=target, _alive=alive: _t if _alive else None)
+            reg[uuid.UUID(int=i + 1)] = ref
+        d = PDict(reg)
+        ctx.env.update(d=d, keys=list(reg), pat=pat)
+        return [me, d, kind], {}
+
+    def post(self, ctx, result):
+        e = ctx.env
+        kind, pat = ctx.case
+        left = set(e["d"].items)
+        want = {k for k, alive in zip(e["keys"], pat) if alive}
+        ctx.oblige("exactly-the-dead-entries-leave-the-registry", left == want, note=f"left {sorted(k.int for k in left)}, expected {sorted(k.int for k in want)}")
+        ios = [p for k, p in ctx.path.events if k == "io"]
+        dead = [k for k, alive in zip(e["keys"], pat) if not alive]
+        if kind == "PropertyGroups":
+            ctx.oblige("property-groups-have-no-container-in-the-file-to-clear", not ios, note="the file has no 'PropertyGroups' container: asking the writer to delete from it fails")
+        else:
+            ok = len(ios) == len(dead) and all(p["fun"] == "remove_entity" and p["args"][:2] == [k, kind] and p["kw"].get("mode") == "r+" for p, k in zip(ios, dead))
+            ctx.oblige("each-dead-entry-is-removed-from-its-flat-container", ok)
+
+
+CONTRACTS = CONTRACTS + [SweepDeadEntries]
